@@ -67,6 +67,15 @@ def run(ctx):
         inp = {"family": "blockmix", "len": total, "seed": seed, "p1": B}
         members = [([total], 1, 0)] + [([total], conc, p) for conc, p in ((2, 0), (4, 40), (16, 10))] + [([B, B + 5, total - 2 * B - 5], 1, 0), ([B - 1, total - B + 1], 4, 10)]
         groups.append((gi, o, inp, members, None))
+    # legacy frames with a block beyond 4 MiB that does not compress (its stored form is larger than 4 MiB): the sequential
+    # and the concurrent Writer must size their block buffers alike
+    for seed, fam in ((0, "random"),) if q else ((0, "random"), (1, "random"), (2, "lowentropy")):
+        gi = len(groups)
+        o = {"code": 7, "bcs": False, "ccs": False, "level": 0, "legacy": True, "handler": False}
+        total = 5 * (1 << 20) + 3 + seed
+        inp = {"family": fam, "len": total, "seed": 900 + seed, "p1": 3}
+        members = [([total], 1, 0), ([total], 2, 0), ([total], 4, 10), ([1 << 20, total - (1 << 20)], 1, 0)]
+        groups.append((gi, o, inp, members, None))
     # fixed call sequences WITH Flush calls (an explicit block boundary): identical for every concurrency level and schedule
     for gi in range(len(groups), len(groups) + (8 if q else 80)):
         o = {"code": 4, "bcs": gi % 2 == 0, "ccs": True, "level": 0, "legacy": False, "handler": False}
